@@ -266,11 +266,21 @@ class TypedNode(Node):
         if isinstance(child, self._tree.__class__):
             if deep is None:
                 deep = True
-            topnodes = child._root.children
-            if isinstance(before, (int, TypedNode)) or before is True:
+            # Iterate a copy: we must not modify the child list of the source
+            # tree (note: `True` is an `int` as well).
+            topnodes = list(child._root.children)
+            if isinstance(before, int) and before is not False:
+                # Inserting at a fixed index: add in reverse order to keep the order
                 topnodes.reverse()
+            # Refuse before adding anything if a node would collide with a child
+            own_ids = {n._data_id for n in self.children}
             for n in topnodes:
-                self.add_child(n, before=before, deep=deep)
+                if n._data_id in own_ids:
+                    raise UniqueConstraintError(
+                        f"Node.data already exists in parent: {n}"
+                    )
+            for n in topnodes:
+                self.add_child(n, kind=n.kind, before=before, deep=deep)
             return
 
         source_node = None
